@@ -831,7 +831,9 @@ class Model():
 
         # Reconstruct the associations
         for assoc_entry in serialized_object.get('associations', []):
-            assoc = list(assoc_entry.keys())[0]
+            # The entry holds the association type and, optionally, 'extras'
+            # in whatever order the file format happened to write them.
+            assoc = next(key for key in assoc_entry.keys() if key != 'extras')
             assoc_fields = assoc_entry[assoc]
             association = getattr(model.lang_classes_factory.ns, assoc)()
 
